@@ -62,6 +62,10 @@ type Plan struct {
 	// CoincideReorg: the head event that carries a reorg affecting the current epoch's attester duties arrives
 	// exactly when that slot's attestation job is due (slot start + attestation delay).
 	CoincideReorg bool `json:"coincide_reorg,omitempty"`
+	// StallAfterSchedulePct: chance (per ScheduleJob call, decided on the schedule tape) that the
+	// calling goroutine is held for 1 ms .. 2 slots after the call returns.  Only scenarios whose
+	// oracle does not depend on set-up latency enable it.
+	StallAfterSchedulePct int `json:"stall_after_schedule_pct,omitempty"`
 	// DataStrategy: "" (node 0 directly), "first" or "best": attestation data through the real strategy over all nodes.
 	DataStrategy string `json:"data_strategy,omitempty"`
 }
